@@ -7,12 +7,20 @@ package eval
 // evalList, unaryNeg, the Value constructors.
 
 import (
+	"io"
+
 	sysl "github.com/anz-bank/sysl/pkg/sysl"
 	"github.com/anz-bank/sysl/pkg/zzverif/nd"
+	"github.com/sirupsen/logrus"
 )
 
 func c10EE() *exprEval {
-	return &exprEval{txApp: &sysl.Application{Views: map[string]*sysl.View{}}, exprStack: exprStack{}}
+	// natively the evaluator needs a logger; under the executor logrus is a no-op
+	logger := logrus.New()
+	if logger != nil {
+		logger.SetOutput(io.Discard)
+	}
+	return &exprEval{txApp: &sysl.Application{Views: map[string]*sysl.View{}}, exprStack: exprStack{}, logger: logger}
 }
 
 func c10Lit(v *sysl.Value) *sysl.Expr  { return &sysl.Expr{Expr: &sysl.Expr_Literal{Literal: v}} }
